@@ -7,6 +7,7 @@ HARNESSES = {
     'c13': dict(flavour='asan', srcs=['c13.cpp']),
     'c17': dict(flavour='asan', srcs=['c17.cpp']),
     'c04': dict(flavour='asan', srcs=['c04.cpp']),
+    'c15': dict(flavour='asan', srcs=['c15.cpp']),
 }
 
 PROPS = {
@@ -110,6 +111,20 @@ PROPS = {
              "run's when the wet first attempt succeeded. Non-trivial = the wet run signalled >=1 process (or "
              'restarted the service) at its first attempt.',
         assumptions=['sd_bus_* interposed; the wet restart always succeeds'],
+    ),
+    'C15': dict(
+        harness='c15', level='exploration',
+        quick=dict(shards=8, n=400, size=100),
+        thorough=dict(shards=16, n=15000, size=100),
+        rule='rapidcheck-generated trees (depth <=4, <=10 cgroups) with control-file contents from the kernel grammar '
+             '(values up to 2^60 and max, permuted / extra memory.stat keys, upstream and legacy PSI, io.stat for '
+             'configured and unconfigured devices, memory.high.tmp, swap limits incl. 0), random device / coefficient '
+             'configuration, 2-8 ticks with changing values, host-file changes, removal and re-creation under the same '
+             'name, with and without d_type. A vp_probe plugin inside the real tick reads every public accessor of every '
+             'cgroup (root included), twice, with a control-file rewrite in between. Oracle: StatModel computed from the '
+             'SimWorld values and the previous observation (tolerances in DESIGN.md §C15). Non-trivial = non-zero memory '
+             'protection at two nested levels (depth >=3) or a re-creation; distinct by scenario hash.',
+        assumptions=['temporal recurrences are checked one step at a time against the previous observed value'],
     ),
 }
 
